@@ -173,10 +173,12 @@ const (
 	capChecker
 	capTransformer
 	capBoth
+	capIdentity // a transformer that hands back the node it was given (a legal no-op): the node's own transformer was
+	// applied, so the library must not go on and rebuild the children
 	nCaps
 )
 
-var capNames = []string{"nil", "plain", "checker", "transformer", "both"}
+var capNames = []string{"nil", "plain", "checker", "transformer", "both", "identity-transformer"}
 
 type recorder struct {
 	log      []string
@@ -232,6 +234,16 @@ func (b baseInterp) transform(userCtx interface{}, node parsley.Node) (parsley.N
 	return ast.NewTerminalNode(nil, fmt.Sprintf("t%d", b.id), nil, node.Pos(), node.ReaderPos()), nil
 }
 
+type identityInterp struct{ baseInterp }
+
+func (c identityInterp) TransformNode(u interface{}, n parsley.Node) (parsley.Node, parsley.Error) {
+	c.rec.log = append(c.rec.log, fmt.Sprintf("transform n%d", c.id))
+	if c.rec.failAt == c.id {
+		return nil, parsley.NewErrorf(n.Pos(), "transform of n%d failed", c.id)
+	}
+	return n, nil
+}
+
 type plainInterp struct{ baseInterp }
 type checkerInterp struct{ baseInterp }
 type transformerInterp struct{ baseInterp }
@@ -270,7 +282,7 @@ type c13Tree struct {
 }
 
 func hasChecker(c int) bool     { return c == capChecker || c == capBoth }
-func hasTransformer(c int) bool { return c == capTransformer || c == capBoth }
+func hasTransformer(c int) bool { return c == capTransformer || c == capBoth || c == capIdentity }
 
 // build makes the real tree for shape s with capabilities caps (per non-terminal, in pre-order) and list mode.
 func buildTree(s *shape, caps []int, listAlts int) *c13Tree {
@@ -300,6 +312,8 @@ func buildTree(s *shape, caps []int, listAlts int) *c13Tree {
 				return transformerInterp{b}
 			case capBoth:
 				return bothInterp{b}
+			case capIdentity:
+				return identityInterp{b}
 			}
 			return plainInterp{b}
 		}
@@ -665,6 +679,9 @@ func c13One(res *explore.Result, s *shape, caps []int, listAlts int, verbose boo
 							wantErr = fmt.Sprintf("transform of n%d failed", m.id)
 							return ""
 						}
+						if m.cap == capIdentity {
+							return plain(m) // handed back as it is: children untouched, nothing below it called
+						}
 						return fmt.Sprintf("t%d", m.id)
 					}
 					var p []string
@@ -715,7 +732,9 @@ func c13One(res *explore.Result, s *shape, caps []int, listAlts int, verbose boo
 		reach = func(m *mnode) {
 			if m.kind == 'N' || m.kind == 'Z' {
 				if hasTransformer(m.cap) {
-					replaced[m.id] = true
+					if m.cap != capIdentity {
+						replaced[m.id] = true
+					}
 					tlog = append(tlog, m.id)
 					return
 				}
@@ -1015,6 +1034,38 @@ func c13Run(env *explore.Env) *explore.Result {
 	if env.Shard == 0 {
 		c13Builtins(res)
 	}
+	// deep trees: chains of d nested non-terminals (with and without a sibling leaf on every level) for every depth up to
+	// 70 and around 128 and 256 — the depths at which an explicit stack or a pre-sized buffer inside a pass would grow
+	depths := []int{126, 127, 128, 129, 130, 255, 256, 257, 258}
+	for d := 1; d <= 70; d++ {
+		depths = append(depths, d)
+	}
+	for i, d := range depths {
+		if !env.Mine(int64(i)) {
+			continue
+		}
+		for _, sibling := range []bool{false, true} {
+			sh := &shape{kind: 'T'}
+			for k := 0; k < d; k++ {
+				if sibling {
+					sh = &shape{kind: 'N', kids: []*shape{{kind: 'T'}, sh}}
+				} else {
+					sh = &shape{kind: 'N', kids: []*shape{sh}}
+				}
+			}
+			capsets := [][]int{make([]int, d), make([]int, d)}
+			for k := 0; k < d; k++ {
+				capsets[0][k], capsets[1][k] = capPlain, capChecker
+			}
+			if d > 70 {
+				capsets = capsets[:1] // the failure-point loops are quadratic in the number of checkers
+			}
+			for _, caps := range capsets {
+				c13One(res, sh, caps, 0, false)
+				res.Add("deep_chain_cases", 1)
+			}
+		}
+	}
 	var idx int64
 	for n := 1; n <= c13MaxNodes(env.Tier); n++ {
 		var all []*shape
@@ -1110,7 +1161,7 @@ func init() {
 	explore.Register(&explore.Check{
 		ID:    "C13",
 		Level: "model_checking",
-		Rule: "every ordered tree with up to N nodes (arity <= 3; terminal, empty and childless non-terminal leaves; up to N-1 nodes also with every labelling of the first three inner nodes as library non-terminal / user-defined non-terminal type / nested alternative list), alone and under a root alternative list of 1 or 2 alternatives, x every assignment of interpreter capability {nil, plain, checker, transformer, both} to its first three non-terminals x, per pass, every stop point (Walk) or every single injected failure (StaticCheck, Transform, EvaluateNode); " +
+		Rule: "chains of 1..70, ~128 and ~256 nested non-terminals; every ordered tree with up to N nodes (arity <= 3; terminal, empty and childless non-terminal leaves; up to N-1 nodes also with every labelling of the first three inner nodes as library non-terminal / user-defined non-terminal type / nested alternative list), alone and under a root alternative list of 1 or 2 alternatives, x every assignment of interpreter capability {nil, plain, checker, transformer, both} to its first three non-terminals x, per pass, every stop point (Walk) or every single injected failure (StaticCheck, Transform, EvaluateNode); " +
 			"the recorded call sequences, results, errors and Schema() of every node are compared with a recursive model of the documented passes; plus Select/Array/Object over all small arities; " +
 			"state = (shape, capabilities, list mode); transition = one run of one pass with one stop/failure point; non-trivial = at least two non-terminals or a root list",
 		Assume: []string{"model of the passes in mc/ix/c13.go written from the doc comments of walk.go, static_check.go, transform.go, nonterminal_node.go, node_list.go (a list delegates to its first alternative and is then visited itself; a list is not transformable)"},
